@@ -218,6 +218,9 @@ class ExprMixin:
             return z3.Const(f'flt_{repr(v.t)}', OPQ)
         if v.k == 'none':
             return z3.Const('py_None', OPQ)
+        if v.k == 'tuple':
+            els = [self.as_opq(x) for x in v.t]
+            return self.ufunc(f'mk_tuple_{len(els)}', *([OPQ] * len(els)), OPQ)(*els) if els else z3.Const('empty_tuple', OPQ)
         if v.k == 'ref':
             return self.ufunc('of_ref', INT, OPQ)(v.t)
         if v.k == 'obj':
@@ -344,6 +347,8 @@ class ExprMixin:
         if a.k == 'none' or b.k == 'none':
             if a.k == 'opq' or b.k == 'opq':
                 o = a if a.k == 'opq' else b
+                if getattr(self, 'opq_model_table', {}).get(o.x or 'any', {}).get('__truthy__'):
+                    return z3.BoolVal(False)       # a value of this external kind is an object, never None
                 return self.ufunc('is_none', OPQ, BOOL)(o.t)
             return z3.BoolVal(a.k == b.k)
         if {a.k, b.k} == {'ref', 'obj'}:
@@ -418,7 +423,7 @@ class ExprMixin:
             try:
                 return self.as_opq(a) == self.as_opq(b)
             except Unsupported:
-                return z3.BoolVal(False) if (a.k in ('list', 'tuple') or b.k in ('list', 'tuple')) else self._unsup_eq(a, b)
+                return z3.BoolVal(False) if (a.k in ('list',) or b.k in ('list',)) else self._unsup_eq(a, b)
         if a.k == 'ref' and b.k == 'ref':
             return a.t == b.t
         kinds = {a.k, b.k}
@@ -485,6 +490,9 @@ class ExprMixin:
             if not items:
                 return z3.BoolVal(False)
             return z3.Or(*[self.equal(x, y) for y in items])
+        if c.k == 'dict' and self.st.heap[c.t].sym:
+            h = self.st.heap[c.t]
+            return z3.Or(*[self.equal(x, k) for k, _ in h.sym])
         if c.k == 'dict':
             h = self.st.heap[c.t]
             try:
@@ -635,7 +643,7 @@ class ExprMixin:
         return SV(kind, z3.simplify(z3.Extract(s, a2, ln)), base.x)
 
     def opq_slice(self, base, lo, hi, node):
-        raise Unsupported('slice of an opaque value')
+        return self.opq_call(base, '__getitem__', [SV('slice', (lo, hi))], {}, node)
 
     def index_value(self, base, idx, node=None):
         if base.k == 'list' and isinstance(self.st.heap[base.t], HSeqList):
@@ -655,9 +663,26 @@ class ExprMixin:
             if not -len(items) <= ic < len(items):
                 raise PyRaise('IndexError')
             return items[ic]
+        if base.k == 'dict' and self.st.heap[base.t].sym:
+            h = self.st.heap[base.t]
+            for k_, v_ in reversed(h.sym):
+                if self.branch(self.equal(idx, k_)):
+                    return v_
+            raise PyRaise('KeyError')
         if base.k == 'dict':
             h = self.st.heap[base.t]
-            k = key_of(idx)
+            try:
+                k = key_of(idx)
+            except Unsupported:
+                if idx.k == 'enumv':
+                    idx = self.concrete_member(idx)
+                    k = key_of(idx)
+                else:
+                    # symbolic key: case split over the (concrete) keys of the dictionary
+                    for kk, vv in h.d.items():
+                        if self.branch(self.equal(idx, self.unkey(kk))):
+                            return vv
+                    raise PyRaise('KeyError')
             if k in h.d:
                 return h.d[k]
             if h.default is not None:
@@ -700,7 +725,9 @@ class ExprMixin:
     def obj_getitem(self, base, idx, node):
         if base.k == 'obj':
             return self.call_method(base, '__getitem__', [idx], {}, node)
-        raise Unsupported('opaque __getitem__')
+        if '__getitem__' in self.opq_models().get(base.x or 'any', {}):
+            return self.opq_call(base, '__getitem__', [idx], {}, node)
+        raise Unsupported(f'opaque __getitem__ on {base.x}')
 
     def ev_Lambda(self, e):
         return SV('func', FuncVal(node=e, closure=self.frame.env, owner=self.frame.cls, module=self.frame.module, name='<lambda>'))
